@@ -146,7 +146,6 @@ def runCase : CaseFn := fun c => Id.run do
       let expected : String :=
         if !arrivedQ then "noreq"
         else if kind == "after" then "err shutdown"
-        else if kind == "again" then (if st.quit then "err shutdown" else "HANG")
         else match deliv with
           | some d => showRes q d.res
           | none => if st.quit then "err shutdown" else "HANG"
@@ -162,7 +161,9 @@ def runCase : CaseFn := fun c => Id.run do
           out := out.push s!"ORACLE-FAIL {pre} line {ln}: shape=hang-after-stop request {id} still unanswered after Stop ({obs})"
         continue
       if kind == "again" then
-        if obs != firstObs id then
+        -- after Stop, Result picks at random between a buffered delivery and the closed quit channel
+        let stopSlack := s.stop != 0 && (obs == "err shutdown" || firstObs id == "err shutdown")
+        if obs != firstObs id && !stopSlack then
           let shape := if obs == "HANG" then "result-second-call-blocks" else "result-not-idempotent"
           out := out.push s!"ORACLE-FAIL {pre} line {ln}: shape={shape} second Result() of request {id} gave <{obs}>, first gave <{firstObs id}>"
         continue
